@@ -175,13 +175,26 @@ func init() {
 	register("pp", "end-to-end replay of MC_Pipe / MC_Print streams through the pp binary", func(args []string) error {
 		c := newCommon("pp")
 		bin := c.fs.String("pp", "", "path of the pp binary built from /repo")
+		gotb := c.fs.String("gotraceback", "all", "GOTRACEBACK in pp's environment ('' = unset: pp then adds its hint to single-goroutine dumps)")
 		_ = c.fs.Parse(args)
 		res := newResult("one case = one stream (from MC_Pipe's alphabet or a printed dump / race report of MC_Print) piped through the pp binary; expected stdout = pass-through pieces as Pipeline.tla predicts + pp's own rendering of each dump alone; non-trivial = the stream holds at least one dump")
 		if *bin == "" {
 			res.infra("no -pp binary")
 			return res.write(*c.out)
 		}
-		r := &ppRunner{bin: *bin, cache: map[string]ppOut{}, env: append(os.Environ(), "GOTRACEBACK=all", "TERM=dumb")}
+		env := append(os.Environ(), "TERM=dumb")
+		if *gotb != "" {
+			env = append(env, "GOTRACEBACK="+*gotb)
+		} else {
+			var e2 []string
+			for _, kv := range env {
+				if !strings.HasPrefix(kv, "GOTRACEBACK=") {
+					e2 = append(e2, kv)
+				}
+			}
+			env = e2
+		}
+		r := &ppRunner{bin: *bin, cache: map[string]ppOut{}, env: env}
 		var alpha []absLine
 		var pipes []pipeCase
 		var prints []printCase
@@ -309,6 +322,30 @@ func init() {
 						}
 						checkPP(res, r, lines, pc.Calls, &pc.PP, map[string]interface{}{"mode": pc.Mode, "lines": len(pc.Lines)}, fmt.Sprintf("print case %d", j.i))
 						res.eval(pc.raw, true, nil)
+						// two dumps in one stream: each is rendered as it is rendered alone, wherever it stands.
+						// (The first must end in complete lines and leave nothing behind: no parse error, last
+						// line terminated.)
+						if pc.PP.Determined && len(lines) > 0 && bytes.HasSuffix(lines[len(lines)-1], []byte("\n")) && j.i+1 < len(prints) {
+							pb := &prints[(j.i+1)%len(prints)]
+							if pb.PP.Determined {
+								p2 := &printer{lx: newLexicon(jr, nil), created: map[string]string{}}
+								var a, b []byte
+								for _, l := range lines {
+									a = append(a, l...)
+								}
+								a = append(a, "some text between two dumps\n"...)
+								for i := range pb.Lines {
+									b = append(b, p2.render(i, &pb.Lines[i], false)...)
+								}
+								oa, ob, oab := r.run(a), r.run(b), r.run(append(append([]byte{}, a...), b...))
+								if oa.code == 0 && ob.code == 0 && crashed(oab) == "" && (oab.code != 0 || !bytes.Equal(oab.stdout, append(append([]byte{}, oa.stdout...), ob.stdout...))) {
+									res.violation(Finding{Property: "C02", Aspect: "pp-two-dumps", What: fmt.Sprintf("print cases %d and %d in one stream: pp's output is not the concatenation of its outputs on the two parts (a dump is rendered differently depending on what came before it)", j.i, (j.i+1)%len(prints)),
+										Input: append(append([]byte{}, a...), b...), Expected: string(oa.stdout) + string(ob.stdout), Observed: string(oab.stdout)})
+									res.violation(Finding{Property: "C06", Aspect: "earlier-dumps", What: fmt.Sprintf("print cases %d and %d in one stream: the rendering of the second dump depends on the first having been processed earlier in the same run", j.i, (j.i+1)%len(prints)), Input: append(append([]byte{}, a...), b...)})
+								}
+								res.count("two_dump_streams", 1)
+							}
+						}
 					}
 				}
 			}()
